@@ -398,3 +398,45 @@ Proof.
       * intros w9 Hw. apply rpp_repair_end_coh. apply Hw. exact C0.
 Qed.
 End REPAIR.
+
+(* ---------------- the END chunk and the file header of a successful repair ---------------- *)
+Lemma rpp_end_header_ok : forall h, fm_tag h = JLS_TAG_END -> fm_payload_length h = 0 ->
+  let b := fm_encode_chunk_header h in
+  rp_len b = 32 /\ fm_ch_crc_ok b = true /\ fm_tag (fm_ch_fields b) = JLS_TAG_END /\ fm_payload_length (fm_ch_fields b) = 0.
+Proof.
+  intros h Ht Hl. cbv zeta.
+  split; [unfold rp_len; now rewrite fm_encode_chunk_header_length |].
+  unfold fm_encode_chunk_header, fm_chunk_header_body. rewrite <- (app_nil_r (fm_enc_u32 _)).
+  set (c := crc32c _).
+  edestruct (fm_ch_fields_app (fm_enc_u64 (fm_item_next h)) (fm_enc_u64 (fm_item_prev h)) (fm_enc_u8 (fm_tag h))
+               (fm_enc_u8 (fm_rsv0 h)) (fm_enc_u16 (fm_chunk_meta h)) (fm_enc_u32 (fm_payload_length h))
+               (fm_enc_u32 (fm_payload_prev_length h)) (fm_enc_u32 c) []) as (Hf & Hb & Hc & Hk);
+    try apply fm_enc_length.
+  unfold fm_ch_crc_ok. rewrite Hb, Hc, Hf. cbn [fm_tag fm_payload_length].
+  unfold fm_enc_u32 at 2. rewrite (fm_dec_enc 4 c) by (subst c; apply fm_crc32c_lt).
+  subst c. rewrite N.eqb_refl. rewrite Ht, Hl. repeat split; reflexivity.
+Qed.
+
+Lemma rpp_wr_end_close_log : forall r sh gh uh,
+  wm_rlog r = [] -> wm_offset r = wm_fpos r -> wm_fault r = false ->
+  exists h fe, wm_rlog (wm_raw_close (wm_b_raw (wm_core_wr_end
+                  {| wm_b_raw := r; wm_b_source_head := sh; wm_b_signal_head := gh; wm_b_ud_head := uh |})))
+               = [WmWrite 0 (wm_file_header_bytes fe); WmWrite (wm_fpos r) (fm_encode_chunk_header h)]
+            /\ fm_tag h = JLS_TAG_END /\ fm_payload_length h = 0.
+Proof.
+  intros r sh gh uh Hl Ho Hf.
+  unfold wm_core_wr_end, wm_raw_wr, wm_raw_wr_header. cbn [wm_b_raw].
+  rewrite Ho, N.eqb_refl.
+  set (h1 := if wm_fend r <=? wm_fpos r then wm_hdr_set_ppl (wm_mk_hdr 0 JLS_TAG_END 0 0) (wm_last_pl r) else wm_mk_hdr 0 JLS_TAG_END 0 0).
+  assert (T1 : fm_tag h1 = JLS_TAG_END) by (unfold h1; destruct (wm_fend r <=? wm_fpos r); reflexivity).
+  assert (L1 : fm_payload_length h1 = 0) by (unfold h1; destruct (wm_fend r <=? wm_fpos r); reflexivity).
+  cbv zeta. rewrite L1.
+  unfold wm_raw_wr_payload, wm_raw_rd_header.
+  assert (V : forall x, wm_hdr_valid (wm_set_hdr x h1) = true).
+  { intros x. unfold wm_hdr_valid. cbn [wm_hdr wm_set_hdr]. rewrite T1. reflexivity. }
+  rewrite V. cbn [wm_fault wm_set_hdr wm_disk_put wm_bk_fwrite]. rewrite Hf. cbn [N.eqb].
+  exists h1. eexists. split; [| split; [exact T1 | exact L1]].
+  match goal with |- context [if ?b then _ else _] => destruct b end;
+    unfold wm_raw_close, wm_wr_file_header; cbv zeta;
+    match goal with |- context [if ?b then _ else _] => destruct b end; cbn; rewrite Hl; reflexivity.
+Qed.
